@@ -64,6 +64,7 @@ def gen_case(rng, tier):
             c["sym"] = {"tumor_spread": rng.random() < 0.5, "lnl_spread": rng.random() < 0.5}
             if base == 2 and rng.random() < 0.2:
                 c["mode"] = "BN"
+            c["leaf_override"] = rng.choice([None, None, "contra", "ipsi"])
         else:
             kind = rng.choice(["evo", "central", "none"])
             c["flags"] = {"use_mixing": rng.random() < 0.5, "lnl_sym": rng.random() < 0.5,
@@ -82,6 +83,9 @@ def build(case):
     m = impl.build_bilateral(case) if case["cls"] == "bi" else impl.build_midline(case)
     names = [n for n in m.get_params() if n.split("_")[0] not in case["dists"]]
     m.set_params(**{n: gen.gen_value(rng) for n in names})
+    if case["cls"] == "bi" and case.get("leaf_override"):
+        side = m.contra if case["leaf_override"] == "contra" else m.ipsi
+        side.set_params(**{n: gen.gen_value(rng) for n in side.get_spread_params(as_dict=True)})
     if case["cls"] == "ml" and m.midext_prob in (0.0,) and case.get("midext") is True:
         m.set_params(midext_prob=0.25)
     return m
